@@ -116,6 +116,51 @@ BAD_UTF8 = ["80", "bf", "c0", "c080", "c1bf", "c2", "c220", "e0", "e080", "e0808
             "c3", "61c3", "c328", "a0a1", "e228a1", "e28228", "f0288cbc", "f09028bc", "f0288c28"]
 GOOD_STRINGS = ["", "a", "héllo", "\u00ff\u0100", "\u07ff\u0800", "\uffff", "\ud7ff\ue000", "\U00010000", "\U0010ffff",
                 "日本語", "😀 smile", "a\u0301", "\x00\x7f", "\u0080", "tab\tnl\n", "'quotes\"", "\\back", "\u2028"]
+# Round 3.  MARKED TEXT: code points / character sequences that SOME decoder, reader or normaliser treats as
+# something other than content, while `string(bytes)` / `bytes(string)` (strict UTF-8, nothing else) must carry them
+# through unchanged.  The class of change this stands for: "the codec / the text path is swapped for a close relative
+# that agrees on almost every string" — a signature-aware codec (utf-8-sig, utf-16), an error handler, a
+# strip / C-string cut / universal-newline / Unicode-normalisation / case-folding / un-escaping step.  Each such
+# relative is value AND position dependent, so every marker is placed alone, first, last, doubled, at both ends and
+# in the middle of ordinary text (`_marked_strings`).
+MARKED = {
+    "signature": ['\ufeff', '\ufffe', '\xef\xbb\xbf', '\xff\xfe', '\xfe\xff', '+/v8', '\xef\xbb', '\ufeff\ufeff'],
+    "terminator": ['\x00', '\x1a', '\x04', '\x7f', '\x1b'],
+    "line/blank": ['\r\n', '\r', '\n', '\n\r', '\x85', '\u2028', '\u2029', ' ', '\t', '\x0b', '\x0c', '\x1c', '\xa0', '\u3000', '\u2003',
+                   '\u200b', '\u1680'],
+    "replacement": ['\ufffd', '?', '\ufffd\ufffd', '\\udc80', '\\xff', '\\ufffd', '&#65533;'],
+    "escape": ['\\', '\\\\', '\\n', '\\u0041', '\\x41', '\\101', '\\N{BOM}', '%41', '%EF%BB%BF', '%', '&amp;', '&#65;', '=41', '=\r\n',
+               '=?utf-8?q?a?=', 'xn--a', '+AGE-', '+-', '{0}', '%s', '$x', '"', "'", "b'a'"],
+    "normal-form": ['e\u0301', '\xe9', 'A\u030a', '\xc5', '\u212b', '\u2126', '\u03a9', '\ufb01', '\uff21', '\xb5', '\u03bc',
+                    '\u1100\u1161', '\uac00', '\u0958', '\u2000', '\xbd', '\u2460', '\u0344'],
+    "case": ['\xdf', '\u1e9e', '\u0130', '\u0131', 'i\u0307', '\u03c2', '\u03c3', '\u01c5', '\u0149', '\u1f88', 'K', '\u212a'],
+    "format": ['\u200e', '\u200f', '\u202e', '\u2060', '\xad', '\u180e', '\ufe0f', '\u200d', '\u200c', '\u061c', '\ufff9', '\U000e0001',
+               '\U000e0041'],
+    "edge": ['\x01', '\x1f', '\x80', '\x9f', '\u07ff', '\u0800', '\ud7ff', '\ue000', '\ufdd0', '\uffff', '\U00010000', '\U0001fffe',
+             '\U0001f600', '\U000f0000', '\U0010fffd', '\U0010ffff'],
+}
+MARKED_FILL = ['id', 'name,value', 'a', 'x y', 'Zz', 't\xe9', '\u65e5\u672c', '\U0001f431 cat', '0', 'k=v']
+
+
+def _marked_strings(rng: random.Random, quick: bool) -> List[str]:
+    """every marker alone / first / last (always: the positions a signature, a terminator or a strip looks at), and one
+    (quick) or all of: doubled in front, both ends, middle, second position, first after another marker"""
+    allm = [m for ms in MARKED.values() for m in ms]
+    out: List[str] = []
+    for m in allm:
+        w, w2 = rng.choice(MARKED_FILL), rng.choice(MARKED_FILL)
+        out += [m, m + w, w + m]
+        more = [m + m + w, m + w + m, w + m + w2, w[:1] + m + w[1:], rng.choice(allm) + m + w, m + rng.choice(allm) + w,
+                w + m + m, m + w + "\n" + m + w2]
+        out += [rng.choice(more)] if quick else more
+    seen, uniq = set(), []
+    for t in out:
+        if t not in seen:
+            seen.add(t)
+            uniq.append(t)
+    return uniq
+
+
 INT_TEXTS = ["0", "-0", "+0", "007", "+5", "-5", " 1_0 ", "1_000", "1__0", "_1", "1_", "", "-", "+", " ", "12a", "1.0", "1e3",
              "0x10", "0X1f", "-0x10", "-0X1F", "0x", "0xg", "0x_1", "0x1_0", "0x-5", "0x+5", "0x0x5", "0x 5", " 0x5", "0x5 ",
              "-0x-5", "- 5", "--5", "+-5", "\t42\n", "\u00a042", "4 2", "0b1", "0o7", "1,000", "1L", "0x8000000000000000",
@@ -261,6 +306,18 @@ class C10(Prop):
         for b in byts:
             cases.append({"kind": "conv", "f": "string", "src": "y", "v": b.hex(), "via": rng.choice(["direct", "Ivar", "Cvar"])})
             cases.append({"kind": "rt", "rt": "bytes_string", "v": b.hex(), "via": rng.choice(["direct", "Ivar", "Cvar"])})
+        # marked text (round 3): markers of signatures / terminators / line ends / escapes / normal forms at every position,
+        # as text and as its bytes, through every via — literals included (escaped string literal, b"\xNN" bytes literal)
+        for s in _marked_strings(rng, quick):
+            b = utf8_encode(s)
+            cases.append({"kind": "rt", "rt": "string_bytes", "v": s, "via": via(), "esc": 1})
+            cases.append({"kind": "conv", "f": "string", "src": "y", "v": b.hex(), "via": via(), "esc": 1})
+            if rng.random() < 0.5:
+                cases.append({"kind": "rt", "rt": "bytes_string", "v": b.hex(), "via": via(), "esc": 1})
+            if rng.random() < 0.5:
+                cases.append({"kind": "conv", "f": "bytes", "src": "s", "v": s, "via": via(), "esc": 1})
+            if rng.random() < 0.25:
+                cases.append({"kind": "conv", "f": "string", "src": "s", "v": s, "via": via(), "esc": 1})
         for t in ["true", "false", "True", "False", "TRUE", "FALSE", "t", "f", "1", "0", "yes", "", "T", "tRuE", " true", "2", "-1", "00"]:
             cases.append({"kind": "conv", "f": "bool", "src": "s", "v": t, "via": via()})
         for b in (0, 1):
@@ -462,6 +519,11 @@ class C10(Prop):
                     del d[k]
                 steps += [conv("string", "y", bytes(d).hex(), rng.choice(["direct", "Ivar", "Cvar"])),
                           rt("bytes_string", bytes(d).hex(), rng.choice(["direct", "Ivar", "Cvar"]))]
+            # round 3: the same content behind / in front of a marker (signature, terminator, line end, ...): a relative that a
+            # signature-aware or stripping decoder maps to the SAME text as w
+            allm = [m for ms in MARKED.values() for m in ms]
+            for wm in (rng.choice(MARKED["signature"] + MARKED["terminator"] + MARKED["line/blank"]) + w, w + rng.choice(allm), rng.choice(allm) + w):
+                steps += [rt("string_bytes", wm), conv("string", "y", utf8_encode(wm).hex(), rng.choice(["direct", "Ivar", "Cvar"]))]
             w2 = w + "x" if rng.random() < 0.5 else w.swapcase() + w[:1]
             steps += [conv("bytes", "s", w2), rt("string_bytes", w2), conv("string", "s", w), conv("bytes", "y", b.hex(), rng.choice(["direct", "Ivar", "Cvar"]))]
             finish(steps, threads=(i % 3 == 2))
@@ -484,9 +546,16 @@ class C10(Prop):
 
     # ------------------------------------------------------------------------------------------
     @staticmethod
-    def _value(src, v):
-        """(python value for a binding / direct call, CEL literal text or None)"""
+    def _value(src, v, esc=False):
+        """(python value for a binding / direct call, CEL literal text or None); esc: cases of the marked-text dimension
+        also have literals for non-ASCII text (\\uXXXX / \\UXXXXXXXX escapes) and for bytes (b"\\xNN...")"""
         from celpy import celtypes
+        if esc and src == "s":
+            lit = "'" + "".join(ch if 32 <= ord(ch) < 127 and ch not in "\\'\"" else
+                                ("\\u%04x" % ord(ch) if ord(ch) < 0x10000 else "\\U%08x" % ord(ch)) for ch in v) + "'"
+            return celtypes.StringType(v), lit
+        if esc and src == "y":
+            return celtypes.BytesType(bytes.fromhex(v)), 'b"' + "".join("\\x%02x" % x for x in bytes.fromhex(v)) + '"'
         if src == "i":
             lit = f"({v})" if I_MIN < v <= I_MAX else None
             return (celtypes.IntType(v) if I_MIN <= v <= I_MAX else None), lit
@@ -568,7 +637,7 @@ class C10(Prop):
         else:
             src, expr = self.RT[c["rt"]]
             fns = re.findall(r"[a-z]+(?=\()", expr)      # outer first
-        val, lit = self._value(src, c["v"])
+        val, lit = self._value(src, c["v"], bool(c.get("esc")))
         via = c["via"]
         if via in ("I", "C") and lit is None:
             via += "var"
